@@ -2,7 +2,11 @@
 
 package tbtc
 
-import "math/big"
+import (
+	"math/big"
+
+	"github.com/keep-network/keep-common/pkg/cache"
+)
 
 // Verification hook (build tag verif): re-exports existing identifiers only.
 
@@ -27,4 +31,14 @@ func (v *VerifC37Deduplicator) NotifyDKGResultSubmitted(
 
 func (v *VerifC37Deduplicator) NotifyWalletClosed(walletID [32]byte) bool {
 	return v.d.notifyWalletClosed(walletID)
+}
+
+// VerifC37Caches returns the time caches backing the deduplicator (DKG seed,
+// DKG result hash, wallet closed), so that a test clock can age their entries.
+func (v *VerifC37Deduplicator) VerifC37Caches() []*cache.TimeCache {
+	return []*cache.TimeCache{
+		v.d.dkgSeedCache,
+		v.d.dkgResultHashCache,
+		v.d.walletClosedCache,
+	}
 }
